@@ -6,6 +6,9 @@
 #[cfg(kani)]
 pub mod util;
 
+#[cfg(all(kani, feature = "c02"))]
+pub mod c02;
+
 #[cfg(all(kani, feature = "c16"))]
 pub mod c16;
 
